@@ -15,6 +15,29 @@ TAGS = ["types", "type", "composite", "enum", "set", "ref", "validValue", "choic
 REF_ATTRS = ["type", "encodingType", "dimensionType", "valueRef", "headerType", "primitiveType"]
 
 
+# every attribute name the SBE schema language / sbeppc knows: "attr-add" puts each one on every element that lacks it
+ATTR_VOCAB = ["name", "id", "type", "primitiveType", "presence", "valueRef", "offset", "length", "minValue", "maxValue", "nullValue",
+              "sinceVersion", "deprecated", "description", "semanticType", "characterEncoding", "encodingType", "dimensionType",
+              "blockLength", "headerType", "byteOrder", "package", "version", "semanticVersion", "href"]
+NUMERIC_ATTRS = {"id", "offset", "length", "sinceVersion", "deprecated", "blockLength", "version", "minValue", "maxValue", "nullValue"}
+
+
+def added_values(attr, names, rich):
+    vals = ["abc"]
+    if attr in NUMERIC_ATTRS:
+        vals += ["0"] + (["-1", "18446744073709551616", ""] if rich else [])
+    if attr == "presence":
+        vals = ["constant", "optional", "required"] + (["abc"] if rich else [])
+    if attr == "valueRef":
+        dotted = [n for n in names if "." in n]
+        vals += dotted[:1] + ([dotted[0].split(".")[0] + ".nope", "."] if dotted else []) + ([".x", "x."] if rich else [])
+    if attr in ("type", "encodingType", "dimensionType", "headerType", "primitiveType"):
+        vals += (["uint8", "char"] if rich else ["uint8"]) + [n for n in names if "." not in n][:(3 if rich else 1)]
+    if attr == "byteOrder":
+        vals += ["bigEndian"]
+    return vals
+
+
 def local(tag):
     return tag.rsplit("}", 1)[-1]
 
@@ -60,7 +83,7 @@ def named_entities(root):
     return names
 
 
-def mutants(text, quick=False):
+def mutants(text, quick=False, rich_add=None, add=True):
     root = parse(text)
     all_nodes = nodes(root)
     names = named_entities(root)
@@ -85,6 +108,15 @@ def mutants(text, quick=False):
                 r = clone()
                 at(r, path).set(a, t)
                 yield "%s: %s=%r" % (lab, a, t), "attr-garble:%s.%s" % (tagname, local(a)), serialize(r)
+        present = {local(a) for a in e.attrib}
+        for a in (ATTR_VOCAB if add else []):
+            if a in present:
+                continue
+            for t in added_values(a, names, (not quick) if rich_add is None else rich_add):
+                r = clone()
+                at(r, path).set(a, t)
+                yield "%s: add %s=%r" % (lab, a, t), "attr-add:%s.%s" % (tagname, a), serialize(r)
+        for a in list(e.attrib):
             if local(a) in REF_ATTRS:
                 for n in names if not quick else names[:12]:
                     if e.get(a) == n:
